@@ -1,7 +1,7 @@
 SPECIFICATION Spec
 CONSTANTS
   N = 5
-  DVals = {1, 5, 9}
+  DVals = {1, 6, 9}
   Mult = 1
   Canon = TRUE
   EpsG <- E12
